@@ -214,7 +214,11 @@ def rule_e5(ctx):
     # must be a top-level statement directly after the try that raises SemanticError when check fails
     if r0 not in fn.body:
         raise Unrecognised("C19.E5", construct, "`return 0` is not a top-level statement")
-    prev = fn.body[fn.body.index(r0) - 1]
+    # the nearest preceding try statement (statements without control flow in between do not matter)
+    idx0 = fn.body.index(r0) - 1
+    while idx0 >= 0 and isinstance(fn.body[idx0], (ast.Assign, ast.AnnAssign, ast.Expr)) and not any(isinstance(x, (ast.Yield, ast.Await)) for x in ast.walk(fn.body[idx0])):
+        idx0 -= 1
+    prev = fn.body[idx0] if idx0 >= 0 else None
     ok = False
     why = "statement before `return 0` is not the try around solver.check"
     tree_var = None
@@ -237,6 +241,10 @@ def rule_e5(ctx):
             why = "try around solver.check has no `if not solver.check(tree): raise ...` gate with handlers returning code 1"
     ctx.check(ok, "E5-check-gate", construct, "return 0 only after solver.check(tree)", site(r0),
               f"exit code 0 must be dominated by a successful solver.check: {why}", "code 0 only if solver.check(tree) held")
+    # statements skipped between the try and `return 0` must not re-bind the checked tree
+    between = fn.body[idx0 + 1: fn.body.index(r0)]
+    rebinding = [st for st in between for x in ast.walk(st) if isinstance(x, ast.Name) and isinstance(x.ctx, ast.Store) and x.id == tree_var]
+    ctx.check(not rebinding, "E5-check-gate", construct, "checked tree not re-bound before it is returned", site(r0), f"`{tree_var}` is assigned again between the check and `return 0`", "same binding")
     # the success tuple carries the checked tree
     ctx.check(tree_var is not None and src(r0.value.elts[2]) == f"Some({tree_var})", "E5-check-gate", construct, "returns the checked tree", site(r0),
               f"the tree handed to `parse` output must be the one that was checked ({tree_var}), found {src(r0.value.elts[2])}", "same tree")
